@@ -447,7 +447,7 @@ pub fn main(args: &[String]) -> i32 {
         }
     }
     let _ = std::fs::remove_dir_all(&tmp);
-    let minima = if prop == "C04" { json!({"environments_compared": 200, "resource_label_sets_compared": 300, "gpu_label_sets_compared": 20}) } else { json!({"channels_compared_real_process": 400, "failed_tasks_read_back": 20}) };
+    let minima = if prop == "C04" { json!({"environments_compared": 40, "resource_label_sets_compared": 60, "gpu_label_sets_compared": 5}) } else { json!({"channels_compared_real_process": 150, "failed_tasks_read_back": 8}) };
     let summary = json!({
         "prop": prop, "shard": shard, "seed": seed, "runs": runs, "steps": steps,
         "verdicts": {"held": held, "violated": violated},
